@@ -80,6 +80,17 @@ fn field_checks<F: PrimeField + Ord>(ctx: &Ctx, fc: &FieldCase<F>) {
                 ints.push((x * &rinv) % p);
             }
         }
+        if !ctx.quick() {
+            // thorough: the whole power-of-two ladder, in external and in internal (Montgomery) form: every carry / borrow
+            // position of every limb is hit by some pair of the cross product
+            let bits = p.bits();
+            for k in 0..bits {
+                for x in [alpha::pow2(k) % p, (alpha::pow2(k) - 1u32) % p, (p - (alpha::pow2(k) % p)) % p] {
+                    ints.push((&x * &rinv) % p);
+                    ints.push(x);
+                }
+            }
+        }
         ints = alpha::dedup(ints);
     }
     let els: Vec<F> = ints.iter().map(|x| F::from_repr(repr_of::<F::Repr>(x)).expect("alphabet member not reduced")).collect();
